@@ -734,9 +734,11 @@ pub fn exec(song: &mut Song, tokens: &Vec<Token>) -> bool {
                 break;
             },
             TokenType::Return => {
-                let val_tokens = t.children.clone().unwrap();
-                let val = exec_value(song, &val_tokens);
-                song.variables_insert("Result", val);
+                let val_tokens = t.children.clone().unwrap_or(vec![]);
+                if val_tokens.len() > 0 { // RETURN without a value keeps Result
+                    let val = exec_value(song, &val_tokens);
+                    song.variables_insert("Result", val);
+                }
                 // set return
                 song.flags.break_flag = 3;
                 break;
